@@ -114,6 +114,15 @@ def build_db(variants: List[List[List[Dict[str, Any]]]]) -> Dict[str, Any]:
                                                  out_snpathref=path if kind == "snpathref" else None))
             pats.append(mps)
         ev.patterns = og.ecu_variant_patterns(pats)
+        if n % 2 == 1:
+            # every other candidate overrides the inherited identification services with its own objects: the same
+            # requests byte for byte, so with the cache on they must not be sent again
+            for sv in (1, 2):
+                ev.requests.append(og.request(f"EV{n}.RQ.s{sv}", f"RQ_s{sv}", [og.p_const8("sid", 0x22, bytepos=0),
+                                                                                og.p_const8("did_hi", 0x10, bytepos=1),
+                                                                                og.p_const8("did_lo", sv, bytepos=2)]))
+                ev.diag_comms.append(og.service(f"EV{n}.DC.s{sv}", f"s{sv}", f"EV{n}.RQ.s{sv}",
+                                                ["PR.s2echo", "PR.s2"] if sv == 2 else [f"PR.s{sv}"], [f"NR.s{sv}"]))
         ev.parent_refs.append(og.parent_ref("BV", "BASE-VARIANT", "DLC"))
         layers.append(ev)
         keys.append(variant_key(v))
